@@ -26,7 +26,7 @@ func init() {
 		Level: "fault_enumeration",
 		Rule: "exhaustive environment enumeration: inputs = every sequence of <=2 fragments over F (all chunkings) and every sequence of 3 over a 30-fragment core (reduced chunkings) x 8 policies; for each input of n bytes every subset of split points when n<=8 (2^(n-1) chunkings), otherwise every chunking with <=2 split points (<=1 beyond 24 bytes), plus one byte at a time; " +
 			"each chunking also with a zero-length read before every chunk and with the last chunk delivered together with io.EOF; x destination {bytes.Buffer (has WriteString), plain io.Writer}; plus a 10 000-byte input with every single split point in a 64-byte window around each 4096-byte tokenizer refill. " +
-			"Oracle: Sanitize, SanitizeBytes, SanitizeReader and SanitizeReaderToWriter give identical bytes for every non-blank input under every environment; blank input is returned identical by Sanitize and SanitizeBytes; the caller's []byte is unchanged; results already returned (the slice of SanitizeBytes, the buffer of SanitizeReader) still read the same after the policy sanitised a different document through every entry point; the two cmd binaries (built from /repo) print exactly the harness's reconstruction of their documented policy applied with Sanitize, on every short stdin document and on 64 KiB, 1 MiB + 1 and 3 MiB of stdin. " +
+			"Oracle: Sanitize, SanitizeBytes, SanitizeReader and SanitizeReaderToWriter give identical bytes for every non-blank input under every environment; blank input is returned identical by Sanitize and SanitizeBytes; the caller's []byte is unchanged; results already returned (the slice of SanitizeBytes, the buffer of SanitizeReader) still read the same after the policy sanitised a different document through every entry point; a seekable reader from which a prefix was already read yields the result for the remaining suffix; the two cmd binaries (built from /repo) print exactly the harness's reconstruction of their documented policy applied with Sanitize, on every short stdin document and on 64 KiB, 1 MiB + 1 and 3 MiB of stdin. " +
 			"non-trivial = distinct (policy, input, environment) runs whose input contains markup and was split at least once.",
 		Assumptions: []string{"the cmd binaries are built by bin/check from /repo's working tree into the per-run work directory"},
 		QuickBudget: 50, ThoroughBudget: 800,
